@@ -605,4 +605,401 @@ theorem combination_sound (th1 th2 th : Thm) (h1 : Good th1) (h2 : Good th2)
     · cases h
   · cases h
 
+theorem sigOK_incrAt (inc : Nat) (t : Term) : ∀ lev, sigOK (Term.incrAt inc lev t) = sigOK t := by
+  induction t with
+  | comb f a ihf iha => intro lev; simp [Term.incrAt, sigOK, ihf, iha]
+  | abs x T b ih => intro lev; simp [Term.incrAt, sigOK, ih]
+  | bound i => intro lev; simp only [Term.incrAt]; split <;> rfl
+  | svar n T => intro lev; rfl
+  | var n T => intro lev; rfl
+  | const n T => intro lev; rfl
+
+theorem sigOK_substBoundAt (u : Term) (hu : sigOK u = true) (s : Term) (hs : sigOK s = true) :
+    ∀ n, sigOK (Term.substBoundAt u n s) = true := by
+  induction s with
+  | comb f a ihf iha =>
+    intro n
+    simp only [sigOK, Bool.and_eq_true] at hs
+    simp [Term.substBoundAt, sigOK, ihf hs.1, iha hs.2]
+  | abs x T b ih =>
+    intro n
+    simp only [sigOK] at hs
+    simp [Term.substBoundAt, sigOK, ih hs]
+  | bound i =>
+    intro n
+    simp only [Term.substBoundAt]
+    split
+    · unfold Term.incrBoundvars; rw [sigOK_incrAt]; exact hu
+    · split <;> rfl
+  | svar n T => intro _; exact hs
+  | var n T => intro _; exact hs
+  | const n T => intro _; exact hs
+
+theorem Term.checked_abs_inv (bd : List Ty) (x : String) (T S : Ty) (b : Term)
+    (h : Term.checkedGetType bd (.abs x T b) = .ok S) :
+    ∃ tb, Term.checkedGetType (T :: bd) b = .ok tb ∧ S = Ty.fn T tb := by
+  simp only [Term.checkedGetType, bind, Except.bind] at h
+  cases hb : Term.checkedGetType (T :: bd) b with
+  | error e => rw [hb] at h; cases h
+  | ok tb => rw [hb] at h; cases h; exact ⟨tb, rfl, rfl⟩
+
+theorem Ty.fn_inj {a b c d : Ty} (h : Ty.fn a b = Ty.fn c d) : a = c ∧ b = d := by
+  unfold Ty.fn at h
+  injection h with _ h
+  injection h with h1 h
+  injection h with h2 _
+  exact ⟨h1, h2⟩
+
+/-- an argument that does not type-check cannot occur in a `subst_bound` result that does: the
+result does not depend on it -/
+theorem Term.substBoundAt_irrel (hi : List Ty) (u u' : Term)
+    (hu : ∀ T, Term.checkedGetType hi u ≠ .ok T) (b : Term) :
+    ∀ (lo : List Ty) (S : Ty),
+      Term.checkedGetType (lo ++ hi) (Term.substBoundAt u lo.length b) = .ok S →
+      Term.substBoundAt u lo.length b = Term.substBoundAt u' lo.length b := by
+  induction b with
+  | comb f a ihf iha =>
+    intro lo S h
+    simp only [Term.substBoundAt] at h ⊢
+    obtain ⟨ta, rest, h1, h2⟩ := Term.checked_comb_inv _ _ _ _ h
+    rw [ihf lo _ h1, iha lo _ h2]
+  | abs x T b ih =>
+    intro lo S h
+    simp only [Term.substBoundAt] at h ⊢
+    obtain ⟨tb, h1, -⟩ := Term.checked_abs_inv _ _ _ _ _ h
+    have := ih (T :: lo) tb h1
+    simp only [List.length_cons] at this
+    rw [this]
+  | bound i =>
+    intro lo S h
+    simp only [Term.substBoundAt] at h ⊢
+    split
+    · rename_i hc
+      rw [if_pos hc] at h
+      exfalso
+      have := Term.checkedGetType_incrAt [] lo hi u
+      simp only [List.nil_append, List.length_nil] at this
+      unfold Term.incrBoundvars at h
+      rw [this] at h
+      exact hu S h
+    · rfl
+  | svar n T => intro _ _ _; rfl
+  | var n T => intro _ _ _; rfl
+  | const n T => intro _ _ _; rfl
+
+theorem betaConv_sound (t : Term) (th : Thm) (ht : sigOK t = true)
+    (h : Thm.betaConv t = .ok th) (hwt : Thm.checkThmType th = true) : Good th := by
+  unfold Thm.betaConv at h
+  obtain ⟨t', ht', h⟩ := Thm.catchTerm_bind_ok _ _ _ h
+  obtain ⟨e, he, h⟩ := Thm.liftT_bind_ok _ _ _ h
+  cases h
+  unfold Term.betaConv at ht'
+  split at ht'
+  · rename_i x T b a _
+    simp only [Term.substBound] at ht'
+    cases ht'
+    obtain ⟨S, hS, rfl⟩ := Term.mkEq_inv _ _ _ he
+    have hw := (Thm.checkThmType_iff _).1 hwt
+    obtain ⟨hl, hr, -⟩ := Term.checked_eqAt_inv [] S _ _ _ hw.2
+    simp only [sigOK, Bool.and_eq_true] at ht
+    refine ⟨hwt, ?_, ?_⟩
+    · rw [Thm.sigOK_iff]
+      refine ⟨fun h hm => (nomatch hm), sigOK_eqAt S _ _ ?_ (sigOK_substBoundAt a ht.2 b ht.1 0)⟩
+      simp [sigOK, ht.1, ht.2]
+    · intro M ρ hρ hh
+      exact (holds_eqAt M ρ hρ S _ _ hl hr).2 (sem_beta M ρ hρ [] [] (EnvOK.nil M) x T S b a hl).symm
+  · cases ht'
+
+theorem forallElim_sound (s : Term) (th1 th : Thm) (hs : sigOK s = true) (h1 : Good th1)
+    (h : Thm.forallElim s th1 = .ok th) (hwt : Thm.checkThmType th = true) : Good th := by
+  unfold Thm.forallElim at h
+  split at h
+  · rename_i x T b hd
+    obtain ⟨ts, hts, h⟩ := Thm.liftT_bind_ok _ _ _ h
+    split at h
+    · cases h
+    · rename_i hne
+      obtain ⟨r, hr, h⟩ := Thm.liftT_bind_ok _ _ _ h
+      cases h
+      simp only [Term.substBound] at hr
+      cases hr
+      have hT : T = ts := by simpa using hne
+      subst hT
+      obtain ⟨T', hp, habs, hsabs⟩ := all_inv _ _ _ hd h1.prop_sig h1.prop_bool
+      obtain ⟨tb, hb, hfn⟩ := Term.checked_abs_inv _ _ _ _ _ habs
+      obtain ⟨rfl, rfl⟩ := Ty.fn_inj hfn
+      have hw := (Thm.checkThmType_iff _).1 hwt
+      simp only [sigOK] at hsabs
+      apply good_one th1 _ h1 hwt (sigOK_substBoundAt s hs b hsabs 0)
+      intro M ρ hρ H
+      rw [hp] at H
+      unfold Term.allAt at H
+      rw [holds_all_abs M ρ hρ _ x T' b hb (logicalKind_all T')] at H
+      unfold holds
+      by_cases hc : ∃ T0, Term.checkedGetType [] s = .ok T0
+      · obtain ⟨T0, hT0⟩ := hc
+        have e := Term.getType_of_checked [] s T0 hT0
+        rw [hts] at e
+        cases e
+        have := sem_substBoundAt M ρ [] [] [] [] rfl T' s b hts
+        simp only [List.nil_append, List.length_nil] at this
+        rw [this]
+        exact H _ (sem_lt M ρ hρ [] [] (EnvOK.nil M) s T' hT0)
+      · have hc' : ∀ T0, Term.checkedGetType [] s ≠ .ok T0 := fun T0 h0 => hc ⟨T0, h0⟩
+        have e := Term.substBoundAt_irrel [] s (.var "x" T') hc' b [] Ty.bool hw.2
+        simp only [List.length_nil] at e
+        rw [e]
+        have := sem_substBoundAt M ρ [] [] [] [] rfl T' (.var "x" T') b rfl
+        simp only [List.nil_append, List.length_nil] at this
+        rw [this]
+        exact H _ (hρ 1 "x" T')
+  · cases h
+  · cases h
+
+theorem sigOK_abstractOverAt (x t : Term) :
+    ∀ (n : Nat) (t' : Term), Term.abstractOverAt x n t = .ok t' → sigOK t = true →
+      sigOK t' = true := by
+  induction t with
+  | svar m S =>
+    intro n t' h _
+    simp only [Term.abstractOverAt] at h
+    (repeat' split at h) <;> first | (cases h; rfl) | cases h
+  | var m S =>
+    intro n t' h _
+    simp only [Term.abstractOverAt] at h
+    (repeat' split at h) <;> first | (cases h; rfl) | cases h
+  | const m S =>
+    intro n t' h hs
+    simp only [Term.abstractOverAt] at h
+    cases h; exact hs
+  | bound i =>
+    intro n t' h hs
+    simp only [Term.abstractOverAt] at h
+    cases h; exact hs
+  | comb f a ihf iha =>
+    intro n t' h hs
+    simp only [Term.abstractOverAt, bind, Except.bind] at h
+    simp only [sigOK, Bool.and_eq_true] at hs
+    cases hf : Term.abstractOverAt x n f with
+    | error e => rw [hf] at h; cases h
+    | ok f' =>
+      cases ha : Term.abstractOverAt x n a with
+      | error e => rw [hf, ha] at h; cases h
+      | ok a' =>
+        rw [hf, ha] at h
+        cases h
+        simp [sigOK, ihf n f' hf hs.1, iha n a' ha hs.2]
+  | abs y T b ih =>
+    intro n t' h hs
+    simp only [Term.abstractOverAt, bind, Except.bind] at h
+    simp only [sigOK] at hs
+    cases hb : Term.abstractOverAt x (n + 1) b with
+    | error e => rw [hb] at h; cases h
+    | ok b' =>
+      rw [hb] at h
+      cases h
+      simp [sigOK, ih (n + 1) b' hb hs]
+
+theorem varKey_of_isVarLike (x : Term) (h : Term.isVarLike x = true) :
+    ∃ k n, varKey x = some (k, n, Term.typeOfAtom x) := by
+  cases x <;> simp [Term.isVarLike] at h
+  · exact ⟨0, _, rfl⟩
+  · exact ⟨1, _, rfl⟩
+
+theorem Term.mkLambda_inv (x t l : Term) (h : Term.mkLambda x t = .ok l) :
+    Term.isVarLike x = true ∧ ∃ b, Term.abstractOverAt x 0 t = .ok b ∧
+      l = .abs (Term.nameOf x) (Term.typeOfAtom x) b := by
+  unfold Term.mkLambda at h
+  split at h
+  · rename_i hv
+    refine ⟨hv, ?_⟩
+    simp only [bind, Except.bind, Term.abstractOver, hv, if_true] at h
+    cases hb : Term.abstractOverAt x 0 t with
+    | error e => rw [hb] at h; cases h
+    | ok b => rw [hb] at h; cases h; exact ⟨b, rfl, rfl⟩
+  · cases h
+
+theorem sigOK_mkLambda (x t l : Term) (h : Term.mkLambda x t = .ok l) (ht : sigOK t = true) :
+    sigOK l = true := by
+  obtain ⟨-, b, hb, rfl⟩ := Term.mkLambda_inv x t l h
+  simp only [sigOK]
+  exact sigOK_abstractOverAt x t 0 b hb ht
+
+theorem Term.mkForall_inv (x t q : Term) (h : Term.mkForall x t = .ok q) :
+    Term.isVarLike x = true ∧ ∃ l, Term.mkLambda x t = .ok l ∧
+      q = Term.allAt (Term.typeOfAtom x) l := by
+  unfold Term.mkForall at h
+  split at h
+  · rename_i hv
+    refine ⟨hv, ?_⟩
+    simp only [bind, Except.bind] at h
+    cases hl : Term.mkLambda x t with
+    | error e => rw [hl] at h; cases h
+    | ok l => rw [hl] at h; cases h; exact ⟨l, rfl, rfl⟩
+  · cases h
+
+/-- hypotheses in which the variable does not occur still hold after changing its value -/
+theorem hyps_update (M : Model) (ρ : Valuation) (x : Term) (k : Nat) (n : String) (T : Ty)
+    (hk : varKey x = some (k, n, T)) (hyps : List Term)
+    (hocc : ¬ hyps.any (Term.occursVar x) = true) (v : Nat)
+    (hh : ∀ h ∈ hyps, holds M ρ h) : ∀ h ∈ hyps, holds M (ρ.update k n T v) h := by
+  intro h hm
+  have hno : Term.occursVar x h = false := by
+    cases hc : Term.occursVar x h with
+    | false => rfl
+    | true => exact absurd (List.any_eq_true.2 ⟨h, hm, hc⟩) hocc
+  unfold holds
+  rw [sem_update_of_not_occurs M ρ x k n T hk h hno v [] []]
+  exact hh h hm
+
+theorem forallIntr_sound (x : Term) (th1 th : Thm) (h1 : Good th1)
+    (h : Thm.forallIntr x th1 = .ok th) (hwt : Thm.checkThmType th = true) : Good th := by
+  unfold Thm.forallIntr at h
+  split at h
+  · cases h
+  · rename_i hocc
+    split at h
+    · cases h
+    · obtain ⟨q, hq, h⟩ := Thm.liftT_bind_ok _ _ _ h
+      cases h
+      obtain ⟨hvl, l, hl, rfl⟩ := Term.mkForall_inv _ _ _ hq
+      obtain ⟨k, n, hk⟩ := varKey_of_isVarLike x hvl
+      refine ⟨hwt, ?_, ?_⟩
+      · rw [Thm.sigOK_iff]
+        exact ⟨((Thm.sigOK_iff _).1 h1.sig).1, sigOK_allAt _ _ (sigOK_mkLambda x _ l hl h1.prop_sig)⟩
+      · intro M ρ hρ hh
+        show holds M ρ (Term.allAt (Term.typeOfAtom x) l)
+        rw [holds_mkForall M ρ hρ x k n _ hk th1.prop _ h1.prop_bool hq]
+        intro v hv
+        exact h1.valid M _ (hρ.update k n _ v hv) (hyps_update M ρ x k n _ hk _ hocc v hh)
+
+theorem abstraction_sound (x : Term) (th1 th : Thm) (h1 : Good th1)
+    (h : Thm.abstraction x th1 = .ok th) (hwt : Thm.checkThmType th = true) : Good th := by
+  unfold Thm.abstraction at h
+  split at h
+  · cases h
+  · rename_i hocc
+    split at h
+    · rename_i t1 t2 hd
+      obtain ⟨l1, hl1, h⟩ := Thm.catchTerm_bind_ok _ _ _ h
+      obtain ⟨l2, hl2, h⟩ := Thm.catchTerm_bind_ok _ _ _ h
+      obtain ⟨e, he, h⟩ := Thm.liftT_bind_ok _ _ _ h
+      cases h
+      obtain ⟨S, hp, ht1, ht2, hs1, hs2⟩ := eq_inv _ t1 t2 _ hd h1.prop_sig h1.prop_bool
+      have hvl := (Term.mkLambda_inv _ _ _ hl1).1
+      obtain ⟨k, n, hk⟩ := varKey_of_isVarLike x hvl
+      have c1 := checked_mkLambda x k n _ hk t1 l1 S ht1 hl1
+      have c2 := checked_mkLambda x k n _ hk t2 l2 S ht2 hl2
+      have := Term.mkEq_checked l1 l2 e _ c1 he
+      subst this
+      refine ⟨hwt, ?_, ?_⟩
+      · rw [Thm.sigOK_iff]
+        exact ⟨((Thm.sigOK_iff _).1 h1.sig).1,
+          sigOK_eqAt _ _ _ (sigOK_mkLambda x _ l1 hl1 hs1) (sigOK_mkLambda x _ l2 hl2 hs2)⟩
+      · intro M ρ hρ hh
+        show holds M ρ (Term.eqAt _ l1 l2)
+        rw [holds_eqAt M ρ hρ _ l1 l2 c1 c2]
+        have b1 := sem_lt M ρ hρ [] [] (EnvOK.nil M) l1 _ c1
+        have b2 := sem_lt M ρ hρ [] [] (EnvOK.nil M) l2 _ c2
+        rw [Model.size_fn] at b1 b2
+        apply code_ext _ _ _ _ b1 b2
+        intro v hv
+        rw [appCode_sem_mkLambda M ρ hρ x k n _ hk t1 l1 S ht1 hl1 v hv,
+          appCode_sem_mkLambda M ρ hρ x k n _ hk t2 l2 S ht2 hl2 v hv]
+        have hv' := h1.valid M _ (hρ.update k n _ v hv) (hyps_update M ρ x k n _ hk _ hocc v hh)
+        rw [hp, holds_eqAt M _ (hρ.update k n _ v hv) S t1 t2 ht1 ht2] at hv'
+        exact hv'
+    · cases h
+
+theorem Forall2.exists_right {α β : Type} {R : α → β → Prop} {l1 : List α} {l2 : List β}
+    (h : Forall2 R l1 l2) : ∀ a ∈ l1, ∃ b ∈ l2, R a b := by
+  induction h with
+  | nil => intro a ha; cases ha
+  | cons hr _ ih =>
+    intro a ha
+    cases ha with
+    | head => exact ⟨_, List.mem_cons_self, hr⟩
+    | tail _ ha' =>
+      obtain ⟨b, hb, hab⟩ := ih a ha'
+      exact ⟨b, List.mem_cons_of_mem _ hb, hab⟩
+
+theorem Forall2.exists_left {α β : Type} {R : α → β → Prop} {l1 : List α} {l2 : List β}
+    (h : Forall2 R l1 l2) : ∀ b ∈ l2, ∃ a ∈ l1, R a b := by
+  induction h with
+  | nil => intro a ha; cases ha
+  | cons hr _ ih =>
+    intro b hb
+    cases hb with
+    | head => exact ⟨_, List.mem_cons_self, hr⟩
+    | tail _ hb' =>
+      obtain ⟨a, ha, hab⟩ := ih b hb'
+      exact ⟨a, List.mem_cons_of_mem _ ha, hab⟩
+
+theorem holds_substType (M : Model) (ρ : Valuation) (σ : Ty.TyInst) (t : Term) (T : Ty)
+    (ht : Term.checkedGetType [] t = .ok T) :
+    holds M ρ (Term.substType σ t) ↔ holds (M.pull σ) (ρ.pull M σ) t := by
+  unfold holds
+  have := sem_substType M ρ σ [] [] t T ht
+  simp only [List.map_nil] at this
+  rw [this]
+
+theorem substType_sound (σ : Ty.TyInst) (th : Thm) (hth : Good th)
+    (hwt : Thm.checkThmType (Thm.substType σ th) = true) : Good (Thm.substType σ th) := by
+  have hw := (Thm.checkThmType_iff th).1 hth.wt
+  refine ⟨hwt, ?_, ?_⟩
+  · unfold Thm.substType
+    rw [Thm.mk'_one, Thm.sigOK_iff]
+    refine ⟨?_, sigOK_substType σ _ hth.prop_sig⟩
+    intro h hm
+    obtain ⟨h0, hm0, rfl⟩ := List.mem_map.1 hm
+    exact sigOK_substType σ h0 (((Thm.sigOK_iff _).1 hth.sig).1 h0 hm0)
+  · intro M ρ hρ hh
+    unfold Thm.substType at hh ⊢
+    rw [Thm.mk'_one] at hh ⊢
+    show holds M ρ (Term.substType σ th.prop)
+    rw [holds_substType M ρ σ _ _ hw.2]
+    apply hth.valid (M.pull σ) _ (hρ.pull σ)
+    intro h hm
+    rw [← holds_substType M ρ σ h _ (hw.1 h hm)]
+    exact hh _ (List.mem_map_of_mem hm)
+
+theorem substitution_sound (inst : Term.Inst) (th1 th : Thm) (h1 : Good th1)
+    (hi : Arg.sigOK (.inst inst) = true)
+    (h : Thm.substitution inst th1 = .ok th) (hwt : Thm.checkThmType th = true) : Good th := by
+  obtain ⟨σ, hs, p, rfl, hF, hp, hty⟩ := Thm.substitution_spec inst th1 th h
+  rw [Thm.mk'_one] at hwt ⊢
+  have hw1 := (Thm.checkThmType_iff th1).1 h1.wt
+  simp only [Arg.sigOK, Bool.and_eq_true, List.all_eq_true] at hi
+  have key : ∀ t0 t1, t0 ∈ th1.hyps ++ [th1.prop] → Term.checkedGetType [] t0 = .ok Ty.bool →
+      Term.substRec { inst with tyinst := σ } (Term.substType σ t0) = .ok t1 → ∀ M ρ,
+      (holds M ρ t1 ↔
+        holds (M.pull σ) ((instVal M ρ { inst with tyinst := σ }).pull M σ) t0) := by
+    intro t0 t1 hm ht0 hr M ρ
+    have hty' : ∀ n T, (n, T) ∈ Term.getSvars (Term.substType σ t0) → ∀ s,
+        ({ inst with tyinst := σ } : Term.Inst).svars.lookup n = some s →
+        Term.checkedGetType [] s = .ok T := by
+      intro n T hmem s hs
+      obtain ⟨T0, hm0, rfl⟩ := Term.mem_getSvars_substType σ t0 n T hmem
+      exact hty t0 hm n T0 hm0 s hs
+    have e1 := (sem_substRec M ρ _ _ t1 hr hty' [] []).2
+    rw [← holds_substType M _ σ t0 _ ht0]
+    unfold holds
+    rw [e1]
+  refine ⟨hwt, ?_, ?_⟩
+  · rw [Thm.sigOK_iff]
+    constructor
+    · intro h' hm'
+      obtain ⟨h0, hm0, hr⟩ := hF.exists_left h' hm'
+      exact sigOK_substRec _ _ h' hr
+        (sigOK_substType σ h0 (((Thm.sigOK_iff _).1 h1.sig).1 h0 hm0)) hi.1 hi.2
+    · exact sigOK_substRec _ _ p hp (sigOK_substType σ _ h1.prop_sig) hi.1 hi.2
+  · intro M ρ hρ hh
+    show holds M ρ p
+    rw [key th1.prop p (List.mem_append_right _ (List.mem_singleton.2 rfl)) hw1.2 hp M ρ]
+    apply h1.valid (M.pull σ) _ ((hρ.instVal _).pull σ)
+    intro h0 hm0
+    obtain ⟨h', hm', hr⟩ := hF.exists_right h0 hm0
+    rw [← key h0 h' (List.mem_append_left _ hm0) (hw1.1 h0 hm0) hr M ρ]
+    exact hh h' hm'
+
 end Holpy
